@@ -81,9 +81,16 @@ func applyProfile(g *Gen, profile string) {
 		g.PHelp = 60
 		g.MaxDepth = 3
 		g.PSettingsLate = 40
+	case "perm":
+		g.PMalformed = 3
+		g.PRequired = 35
+		g.MaxOpts = 7
+		g.PAliases = 70
+		g.UModes = []int{-1, 0, 1, 1, 2}
 	case "soup":
-		g.PMalformed = 90
+		g.PMalformed = 85
 		g.MaxArgv = 14
+		g.PExoticNames = 40
 	}
 }
 
@@ -208,6 +215,36 @@ func genArgvFor(g *Gen, profile string, p *ProgDef) []string {
 				out = append(out, "--")
 			default:
 				out = append(out, g.pick(wordPool))
+			}
+		}
+		return out
+	case "perm":
+		// several candidates for every diagnostic: ambiguous prefixes, unknown options, and (through
+		// the definition) several missing required options
+		out := g.GenArgv(p)
+		vis := visibleOpts([]*CmdDef{p.Root}, p)
+		if len(vis) > 0 && g.pct(50) {
+			o := vis[g.r.Intn(len(vis))]
+			out = append(out, "--"+o.Name[:1])
+		}
+		for i := g.r.Intn(3); i > 0; i-- {
+			pos := g.r.Intn(len(out) + 1)
+			u := []string{"--qq-unk1", "--qq-unk2=v", "-Q", "--zz"}[g.r.Intn(4)]
+			out = append(out[:pos], append([]string{u}, out[pos:]...)...)
+		}
+		return out
+	case "soup":
+		out := g.GenArgv(p)
+		if g.pct(2) { // very long token / many tokens
+			big := make([]byte, 20000)
+			for i := range big {
+				big[i] = "-=ab\xff"[g.r.Intn(5)]
+			}
+			out = append(out, string(big))
+		}
+		if g.pct(2) {
+			for i := 0; i < 3000; i++ {
+				out = append(out, g.pick(weirdPool))
 			}
 		}
 		return out
